@@ -396,6 +396,23 @@ pub fn run(mut run: Run) -> ! {
             check_model(&spec, l);
         });
     }
+    // continuous linear models as the compiler produces them (auxiliaries of relaxed lowerings,
+    // published derived bounds, rows that duplicate bounds): objective models of the C02 family
+    {
+        let n = crate::props::c02::family_size_pub(1, true);
+        run.family("K-compiled-continuous-models", n, |i, l| {
+            let case = crate::props::c02::family_pub(i, 1, true);
+            if let Ok(Ok(lm)) = crate::core::catch(|| case.model.compile()) {
+                if let Some(spec) = LmSpec::from_rooc(&lm) {
+                    // dyadic data only: the exact comparison uses zero tolerance
+                    if spec.all_continuous() && !crate::props::c01::is_inexact(&case.model) {
+                        l.count("compiled-continuous-models");
+                        check_model(&spec, l);
+                    }
+                }
+            }
+        });
+    }
     run.require("standardised");
     run.require("status:optimal");
     run.require("status:infeasible");
